@@ -17,10 +17,10 @@ using trompeloeil::ge;
 const char* lit_file() { return __FILE__; }
 
 #define L_MK(EXPR) return Created{EXPR, __LINE__}
-Created create_lit(int litslot, const Spec& s) {
-  (void)litslot;
+namespace {
+template <class M>
+Created create_lit_impl(M& m, const Spec& s) {
   const int eid = s.eid;
-  Mk& m = wmock(s.obj);
   switch (s.lit) {
     case 0: L_MK(NAMED_REQUIRE_CALL(m, f(_)).RETURN(wret(eid)));
     case 1: L_MK(NAMED_REQUIRE_CALL(m, f(1)).TIMES(2).RETURN(wret(eid)));
@@ -44,6 +44,12 @@ Created create_lit(int litslot, const Spec& s) {
     case 33: L_MK(NAMED_FORBID_CALL_V(m, f(4)));
   }
   return Created{nullptr, 0};
+}
+}  // namespace
+
+Created create_lit(int litslot, const Spec& s) {
+  (void)litslot;
+  return with_mock(s.obj, [&](auto& m) { return create_lit_impl(m, s); });
 }
 
 }  // namespace w
